@@ -1,6 +1,8 @@
 (** C18 — proofs about the glue model Model/Manifest.v. *)
 From CSS Require Import Lib.Base Model.Manifest.
 From Coq Require Import ZifyBool ZifyNat.
+From Coq Require Strings.String.
+Import String.StringSyntax.
 
 (** * Hypotheses about the third-party parts, as named predicates *)
 
@@ -1060,4 +1062,349 @@ Lemma password_example :
 Proof.
   split; [exact toyk_correct|]. split; [exact toyk_wrong_key|]. split; [exact toyk_ct_not_pem|].
   cbv zeta. repeat split; vm_compute; reflexivity.
+Qed.
+
+(** * 5. Hash requests left to the scheme (null / unknown hash names), algorithm
+      names, key sizes and key kinds *)
+
+(** ** what the label stored with a CBnT signature is *)
+
+(** an explicit request is stored as it is: the suite never changes it *)
+Lemma stored_hash_explicit sch req : is_null req = false -> stored_hash V20 sch req = req.
+Proof. intros Hn. unfold stored_hash. rewrite Hn. reflexivity. Qed.
+
+(** a null request is handed on as null: the label follows the scheme's own digest *)
+Lemma stored_hash_null sch req : is_null req = true -> stored_hash V20 sch req = scheme_hash sch.
+Proof. intros Hn. unfold stored_hash. rewrite Hn. reflexivity. Qed.
+
+Lemma scheme_hash_not_null sch : is_null (scheme_hash sch) = false.
+Proof. unfold scheme_hash. destruct (sch =? AlgRSAPSS); reflexivity. Qed.
+
+(** (label) of [sign_verify_struct] holds exactly for the null requests and for the
+    request that names the scheme's own digest *)
+Lemma hash_label_ok_iff sch req :
+  stored_hash V20 sch req = scheme_hash sch <-> is_null req = true \/ req = scheme_hash sch.
+Proof.
+  destruct (is_null req) eqn:Hn.
+  - rewrite (stored_hash_null sch req Hn). tauto.
+  - rewrite (stored_hash_explicit sch req Hn). split; [auto|intros [Hx|Hx]; [discriminate|exact Hx]].
+Qed.
+
+(** the null requests are the ONLY requests that fit both schemes the tool offers *)
+Lemma only_null_fits_both_schemes req :
+  (stored_hash V20 AlgRSASSA req = scheme_hash AlgRSASSA /\
+   stored_hash V20 AlgRSAPSS req = scheme_hash AlgRSAPSS) <-> is_null req = true.
+Proof.
+  rewrite !hash_label_ok_iff. split.
+  - intros [[Hn|Ha] [Hn'|Hb]]; auto. rewrite Ha in Hb. vm_compute in Hb. discriminate.
+  - intros Hn. auto.
+Qed.
+
+(** A glue that replaced a null request by a fixed explicit algorithm before handing
+    it to SetSignature (instead of leaving the choice to the scheme): whatever the
+    default, the label is wrong for one of the two schemes. *)
+Definition stored_hash_defaulting (dflt : Z) (g : gen) (sch req : Z) : Z :=
+  stored_hash g sch (if is_null req then dflt else req).
+
+Lemma explicit_default_breaks_a_scheme dflt req :
+  is_null dflt = false -> is_null req = true ->
+  exists sch, (sch = AlgRSASSA \/ sch = AlgRSAPSS) /\
+              stored_hash_defaulting dflt V20 sch req <> scheme_hash sch.
+Proof.
+  intros Hd Hr. unfold stored_hash_defaulting. rewrite Hr.
+  destruct (Z.eq_dec dflt (scheme_hash AlgRSASSA)) as [He|Hne].
+  - exists AlgRSAPSS. split; [right; reflexivity|].
+    rewrite (stored_hash_explicit _ _ Hd). rewrite He. vm_compute. discriminate.
+  - exists AlgRSASSA. split; [left; reflexivity|].
+    rewrite (stored_hash_explicit _ _ Hd). exact Hne.
+Qed.
+
+(** with the glue as it is, a null request fits every scheme *)
+Lemma null_request_fits_every_scheme sch req :
+  is_null req = true -> stored_hash V20 sch req = scheme_hash sch.
+Proof. exact (stored_hash_null sch req). Qed.
+
+(** CBnT BPM, hash request null (the caller leaves the choice to the scheme) or the
+    scheme's own digest: NO condition on the glue is left. *)
+Theorem sign_verify_cbnt_bpm_fitting E m sch req sk sd :
+  scheme_sound E -> store_laws E ->
+  is_null req = true \/ req = scheme_hash sch ->
+  let m0 := prep E V20 BPM m in
+  let m' := signed_struct E V20 BPM m sch req sk sd in
+  sign_raw E sk sch (signed_message E V20 BPM m0) = Some sd ->
+  detect (ser E m') = Some V20 ->
+  parse E V20 BPM (ser E m') = Some m' ->
+  sign_cut E V20 BPM m' = sign_cut E V20 BPM m0 ->
+  firstn (sign_cut E V20 BPM m0) (ser E m') = firstn (sign_cut E V20 BPM m0) (ser E m0) ->
+  sign_manifest E V20 BPM m sch req sk = Ok (ser E m') /\
+  verify_file E BPM (ser E m') = Ok tt.
+Proof.
+  intros Hsound Hstore Hfit m0 m' Hsd Hdet Hparse Hoff Hpre.
+  apply sign_verify_struct; auto.
+  right. cbn [req_hash]. apply hash_label_ok_iff. exact Hfit.
+Qed.
+
+(** ** algorithm names *)
+
+Lemma upper_idem b : upper (upper b) = upper b.
+Proof.
+  unfold upper. destruct ((97 <=? b) && (b <=? 122)) eqn:Hb; [|rewrite Hb; reflexivity].
+  destruct ((97 <=? b - 32) && (b - 32 <=? 122)) eqn:Hc; [lia|reflexivity].
+Qed.
+
+(** the null names, in any letter case, are known to both generations' tables and
+    stand for a null algorithm *)
+Lemma parse_alg_null_name g name :
+  map upper name = bs "ALGNULL" -> parse_alg g name = Some AlgNull.
+Proof. intros Hn. unfold parse_alg. rewrite Hn. destruct g; vm_compute; reflexivity. Qed.
+
+Lemma parse_alg_unknown_name g name :
+  map upper name = bs "ALGUNKNOWN" -> parse_alg g name = Some AlgUnknown.
+Proof. intros Hn. unfold parse_alg. rewrite Hn. destruct g; vm_compute; reflexivity. Qed.
+
+(** ... and no other name does *)
+Lemma parse_alg_null_inv g name a :
+  parse_alg g name = Some a -> is_null a = true ->
+  map upper name = bs "ALGNULL" \/ map upper name = bs "ALGUNKNOWN".
+Proof.
+  unfold parse_alg. generalize (map upper name) as k. intros k.
+  destruct g; cbn [alg_names alg_names_common alg_names_cbnt app assoc_name];
+    repeat match goal with
+    | |- context [if zlist_eqb ?x ?y then _ else _] =>
+        let Hq := fresh "Hq" in destruct (zlist_eqb x y) eqn:Hq
+    end; intros Hs Hn; inversion Hs; subst a; try (vm_compute in Hn; discriminate);
+    match goal with
+    | Hq : zlist_eqb k (bs "ALGNULL") = true |- _ => left; apply zlist_eqb_eq; exact Hq
+    | Hq : zlist_eqb k (bs "ALGUNKNOWN") = true |- _ => right; apply zlist_eqb_eq; exact Hq
+    end.
+Qed.
+
+(** names the BG 1.0 table knows are known to the CBnT table, with the same meaning *)
+Lemma parse_alg_bg_in_cbnt name a : parse_alg V10 name = Some a -> parse_alg V20 name = Some a.
+Proof.
+  unfold parse_alg. generalize (map upper name) as k. intros k.
+  cbn [alg_names alg_names_common alg_names_cbnt app assoc_name].
+  repeat match goal with
+    | |- context [if zlist_eqb ?x ?y then _ else _] =>
+        let Hq := fresh "Hq" in destruct (zlist_eqb x y) eqn:Hq
+    end; intros Hs; try exact Hs; discriminate.
+Qed.
+
+(** ** the entry points *)
+
+Lemma sign_entry_cbnt_bpm E m sname hname sk sch req :
+  parse_alg V20 sname = Some sch -> parse_alg V20 hname = Some req ->
+  sign_entry E V20 BPM m sname hname sk = sign_manifest E V20 BPM m sch req sk.
+Proof. intros Hs Hh. unfold sign_entry. rewrite Hs, Hh. reflexivity. Qed.
+
+Lemma sign_entry_unknown_name E g d m sname hname sk :
+  parse_alg g sname = None \/ (g = V20 /\ d = BPM /\ parse_alg V20 hname = None) ->
+  sign_entry E g d m sname hname sk = Err 2.
+Proof.
+  unfold sign_entry. intros [Hs|[-> [-> Hh]]].
+  - rewrite Hs. reflexivity.
+  - destruct (parse_alg V20 sname); [rewrite Hh|]; reflexivity.
+Qed.
+
+(** every entry point but the CBnT SignBPM ignores the hash name altogether *)
+Lemma sign_entry_ignores_hash_name E g d m sname h1 h2 sk :
+  ~ (g = V20 /\ d = BPM) ->
+  sign_entry E g d m sname h1 sk = sign_entry E g d m sname h2 sk.
+Proof.
+  intros Hn. unfold sign_entry. destruct (parse_alg g sname); [|reflexivity].
+  destruct g, d; try reflexivity. exfalso. apply Hn. auto.
+Qed.
+
+(** SignBPM (CBnT) with a hash NAME that stands for a null algorithm ("ALGNULL",
+    "ALGUNKNOWN"): signs and verifies, for every scheme the signer accepts. *)
+Theorem sign_entry_null_hash_name E m sname hname sch req sk sd :
+  scheme_sound E -> store_laws E ->
+  parse_alg V20 sname = Some sch ->
+  parse_alg V20 hname = Some req -> is_null req = true ->
+  let m0 := prep E V20 BPM m in
+  let m' := signed_struct E V20 BPM m sch req sk sd in
+  sign_raw E sk sch (signed_message E V20 BPM m0) = Some sd ->
+  detect (ser E m') = Some V20 ->
+  parse E V20 BPM (ser E m') = Some m' ->
+  sign_cut E V20 BPM m' = sign_cut E V20 BPM m0 ->
+  firstn (sign_cut E V20 BPM m0) (ser E m') = firstn (sign_cut E V20 BPM m0) (ser E m0) ->
+  sign_entry E V20 BPM m sname hname sk = Ok (ser E m') /\
+  verify_file E BPM (ser E m') = Ok tt /\
+  sg_hash (mk_sig sch (stored_hash V20 sch req) sd) = scheme_hash sch.
+Proof.
+  intros Hsound Hstore Hs Hh Hn m0 m' Hsd Hdet Hparse Hoff Hpre.
+  rewrite (sign_entry_cbnt_bpm E m sname hname sk sch req Hs Hh).
+  destruct (sign_verify_cbnt_bpm_fitting E m sch req sk sd Hsound Hstore (or_introl Hn) Hsd Hdet Hparse Hoff Hpre) as [Ha Hb].
+  split; [exact Ha|]. split; [exact Hb|]. cbn [sg_hash]. apply stored_hash_null. exact Hn.
+Qed.
+
+(** the hypotheses are satisfiable: RSAPSS with the name "algnull" in the toy environment *)
+Lemma sign_entry_null_hash_name_example :
+  let m := toy_unsigned 33 11 in
+  let sd := 5 :: AlgRSAPSS :: [0;0;0;0;0;0;0;0;33;13;11;1;2] in
+  let m' := signed_struct Toy V20 BPM m AlgRSAPSS AlgNull 5 sd in
+  parse_alg V20 (bs "rsapss") = Some AlgRSAPSS /\ parse_alg V20 (bs "AlgNull") = Some AlgNull /\
+  is_null AlgNull = true /\
+  sign_raw Toy 5 AlgRSAPSS (signed_message Toy V20 BPM (prep Toy V20 BPM m)) = Some sd /\
+  detect (ser Toy m') = Some V20 /\ parse Toy V20 BPM (ser Toy m') = Some m' /\
+  sign_entry Toy V20 BPM m (bs "rsapss") (bs "AlgNull") 5 = Ok (ser Toy m') /\
+  verify_file Toy BPM (ser Toy m') = Ok tt /\
+  (* the same request through a glue that defaults to SHA256 first: rejected *)
+  verify_file Toy BPM (ser Toy (signed_struct Toy V20 BPM m AlgRSAPSS AlgSHA256 5 sd)) = Err 3.
+Proof. cbv zeta. repeat split; vm_compute; reflexivity. Qed.
+
+(** ** key sizes: the digest placed and compared covers the WHOLE key data after
+    the 4 exponent bytes, whatever its length (256 bytes for RSA-2048, 384 for RSA-3072) *)
+
+Theorem place_digest_whole_key H st keyok req kd st' :
+  km_place H st keyok req kd = (Ok tt, st') ->
+  exists alg, req = Some alg /\ (4 <= length kd)%nat /\
+    st' = match st with
+          | KmBG _ _ => KmBG alg (H alg (skipn 4 kd))
+          | KmCBNT _ => KmCBNT [mk_kmhash UsageBPMSigningPKD alg (H alg (skipn 4 kd))]
+          end.
+Proof.
+  intros Hp. apply km_place_ok_inv in Hp. destruct Hp as [alg [_ [Hr [_ [Hl ->]]]]].
+  exists alg. split; [exact Hr|]. split; [exact Hl|]. destruct st; reflexivity.
+Qed.
+
+Lemma nth_skipn_z (n i : nat) (l : bytes) : nth i (skipn n l) 0 = nth (n + i) l 0.
+Proof.
+  revert l. induction n as [|n IH]; intros l; [reflexivity|].
+  destruct l as [|x l]; cbn [skipn plus nth]; [destruct i; reflexivity|apply IH].
+Qed.
+
+Lemma skipn_nth_differ (i : nat) (a b : bytes) :
+  (4 <= i)%nat -> nth i a 0 <> nth i b 0 -> skipn 4 a <> skipn 4 b.
+Proof.
+  intros Hi Hne He. apply Hne.
+  replace i with (4 + (i - 4))%nat by lia.
+  rewrite <- !nth_skipn_z. rewrite He. reflexivity.
+Qed.
+
+(** two keys that differ in ANY byte after the exponent -- byte 4 or byte 387 alike --
+    are told apart by the binding check (when H tells their moduli apart) *)
+Theorem binding_every_key_byte H :
+  (forall alg n x, cbnt_hash_size alg = Some n -> length (H alg x) = n) ->
+  forall st keyok req alg kd0 kd st' i, (4 <= length kd)%nat ->
+  km_place H st keyok req kd0 = (Ok tt, st') ->
+  req = Some alg ->
+  (match st with KmBG _ _ => alg = AlgSHA256 | KmCBNT _ => True end) ->
+  (H alg (skipn 4 kd0) = H alg (skipn 4 kd) -> skipn 4 kd0 = skipn 4 kd) ->
+  (4 <= i)%nat -> nth i kd0 0 <> nth i kd 0 ->
+  km_binding_ok H st' AlgRSA kd = false.
+Proof.
+  intros Hlen st keyok req alg kd0 kd st' i Hk Hp Hr Hbg Hinj Hi Hne.
+  destruct (km_binding_ok H st' AlgRSA kd) eqn:Hb; [|reflexivity].
+  exfalso. apply (rekey_binding H Hlen st keyok req alg kd0 kd st' Hk Hp Hr Hbg Hinj) in Hb.
+  exact (skipn_nth_differ i kd0 kd Hi Hne Hb).
+Qed.
+
+(** A placement that digested only the first [n] bytes of the modulus (a fixed
+    width, e.g. 256 = RSA-2048) -- NOT what the code does: for every key whose
+    modulus is longer than [n] bytes the binding check rejects the very key that
+    was placed (unless H collides on the modulus and its prefix). *)
+Definition placed_state_trunc H (n : nat) (st : kmstate) (alg : Z) (kd : bytes) : kmstate :=
+  match st with
+  | KmBG _ _ => KmBG alg (H alg (firstn n (skipn 4 kd)))
+  | KmCBNT _ => KmCBNT [mk_kmhash UsageBPMSigningPKD alg (H alg (firstn n (skipn 4 kd)))]
+  end.
+
+Lemma placed_state_trunc_as_placed H n st alg kd :
+  (4 <= length kd)%nat ->
+  placed_state_trunc H n st alg kd = placed_state H st alg (firstn 4 kd ++ firstn n (skipn 4 kd)).
+Proof.
+  intros Hk. unfold placed_state_trunc, placed_state.
+  assert (Hs : skipn 4 (firstn 4 kd ++ firstn n (skipn 4 kd)) = firstn n (skipn 4 kd)).
+  { rewrite skipn_app. rewrite firstn_length. replace (Nat.min 4 (length kd)) with 4%nat by lia.
+    rewrite skipn_all2 by (rewrite firstn_length; lia). reflexivity. }
+  rewrite Hs. reflexivity.
+Qed.
+
+Theorem truncated_digest_rejects_own_key H :
+  (forall alg n x, cbnt_hash_size alg = Some n -> length (H alg x) = n) ->
+  forall n st alg kd, (4 <= length kd)%nat ->
+  km_size st alg <> None ->
+  (match st with KmBG _ _ => alg = AlgSHA256 | KmCBNT _ => True end) ->
+  (n < length kd - 4)%nat ->
+  (H alg (firstn n (skipn 4 kd)) = H alg (skipn 4 kd) -> firstn n (skipn 4 kd) = skipn 4 kd) ->
+  km_binding_ok H (placed_state_trunc H n st alg kd) AlgRSA kd = false.
+Proof.
+  intros Hlen n st alg kd Hk Hs Hbg Hn Hinj.
+  rewrite (placed_state_trunc_as_placed H n st alg kd Hk).
+  set (kd0 := firstn 4 kd ++ firstn n (skipn 4 kd)).
+  assert (Hs0 : skipn 4 kd0 = firstn n (skipn 4 kd)).
+  { unfold kd0. rewrite skipn_app. rewrite firstn_length. replace (Nat.min 4 (length kd)) with 4%nat by lia.
+    rewrite skipn_all2 by (rewrite firstn_length; lia). reflexivity. }
+  destruct (km_binding_ok H (placed_state H st alg kd0) AlgRSA kd) eqn:Hb; [|reflexivity].
+  exfalso.
+  apply (binding_placed H Hlen st alg kd0 kd Hk Hs Hbg) in Hb.
+  - rewrite Hs0 in Hb. apply (f_equal (@length Z)) in Hb.
+    rewrite firstn_length, skipn_length in Hb. lia.
+  - rewrite Hs0. exact Hinj.
+Qed.
+
+(** the same key under the placement as coded: accepted (any length) *)
+Theorem whole_digest_accepts_own_key H :
+  (forall alg n x, cbnt_hash_size alg = Some n -> length (H alg x) = n) ->
+  forall st alg kd, (4 <= length kd)%nat ->
+  km_size st alg <> None ->
+  (match st with KmBG _ _ => alg = AlgSHA256 | KmCBNT _ => True end) ->
+  km_binding_ok H (placed_state H st alg kd) AlgRSA kd = true.
+Proof.
+  intros Hlen st alg kd Hk Hs Hbg.
+  apply (binding_placed H Hlen st alg kd kd Hk Hs Hbg); auto.
+Qed.
+
+(** a 6-byte "modulus", digest width 4: the truncating placement rejects its own
+    key and cannot tell it from a key with another tail; the real one does both *)
+Lemma truncated_digest_example :
+  let kd := [1;0;1;0; 7;8;9;10;11;12] in
+  let kd' := [1;0;1;0; 7;8;9;10;99;98] in
+  let st := KmBG AlgSHA256 [] in
+  km_binding_ok toyH (placed_state_trunc toyH 4 st AlgSHA256 kd) AlgRSA kd = false /\
+  placed_state_trunc toyH 4 st AlgSHA256 kd = placed_state_trunc toyH 4 st AlgSHA256 kd' /\
+  km_binding_ok toyH (placed_state toyH st AlgSHA256 kd) AlgRSA kd = true /\
+  km_binding_ok toyH (placed_state toyH st AlgSHA256 kd) AlgRSA kd' = false.
+Proof. cbv zeta. repeat split; vm_compute; reflexivity. Qed.
+
+(** ** key kinds: a BPM key that is not an RSA key (ECC, SM2, anything) never binds,
+    whatever the KM holds and whatever the key data: fiano's ValidateBPMKey refuses
+    the key type before it hashes anything.  A restriction of the tool (ECC keys
+    can be generated and placed, not bound), failing closed. *)
+Lemma check_key_hash_non_rsa H size alg buf keyalg kd :
+  keyalg <> AlgRSA -> check_key_hash H size alg buf keyalg kd <> Ok tt /\
+                      check_key_hash H size alg buf keyalg kd <> Panic.
+Proof.
+  intros Hk. unfold check_key_hash. destruct (size alg); [|split; discriminate].
+  destruct (negb (length buf =? n)%nat); [split; discriminate|].
+  assert (Hq : (keyalg =? AlgRSA) = false) by (apply Z.eqb_neq; exact Hk).
+  rewrite Hq. cbn [negb]. split; discriminate.
+Qed.
+
+Lemma cbnt_validate_from_non_rsa H hs keyalg kd :
+  keyalg <> AlgRSA -> forall count,
+  cbnt_validate_from H hs keyalg kd count = Ok tt -> existsb (fun h => Z.odd (kh_usage h)) hs = false.
+Proof.
+  intros Hk. induction hs as [|h t IH]; intros count; cbn [cbnt_validate_from existsb]; [reflexivity|].
+  destruct (Z.odd (kh_usage h)) eqn:Ho; cbn [orb].
+  - destruct (check_key_hash_non_rsa H cbnt_hash_size (kh_alg h) (kh_buf h) keyalg kd Hk) as [H1 H2].
+    destruct (check_key_hash H cbnt_hash_size (kh_alg h) (kh_buf h) keyalg kd) as [[]| | |]; try discriminate.
+    congruence.
+  - apply IH.
+Qed.
+
+Theorem binding_non_rsa_fails_closed H st keyalg kd :
+  keyalg <> AlgRSA -> km_binding_ok H st keyalg kd = false.
+Proof.
+  intros Hk. destruct st as [alg buf|hs]; cbn [km_binding_ok].
+  - rewrite <- bg_key_match_is_binding. unfold bg_key_match.
+    destruct (bg_has_hash buf); [|reflexivity].
+    destruct (check_key_hash_non_rsa H bg_hash_size alg buf keyalg kd Hk) as [H1 H2].
+    destruct (check_key_hash H bg_hash_size alg buf keyalg kd) as [[]| | |]; try reflexivity; congruence.
+  - rewrite <- cbnt_key_match_is_binding.
+    destruct (cbnt_key_match H hs keyalg kd) as [[|]| | |] eqn:Hm; try reflexivity.
+    exfalso. apply cbnt_key_match_spec in Hm. destruct Hm as [Hh Hv].
+    unfold cbnt_validate in Hv. apply (cbnt_validate_from_non_rsa H hs keyalg kd Hk) in Hv.
+    unfold cbnt_has_hash in Hh. congruence.
 Qed.
